@@ -75,6 +75,31 @@ def check(run):
         run.count("test_scope_failure_after_setup_test_runs")
         for sig, text in runoracle.c03_oracle(c, r):
             run.violation(sig, text, {"case": c, "outcome": r.get("outcome")})
+    # directed family: several tests of one suite with the SAME test-scoped fixtures, run at the same time: each test sets up and
+    # tears down instances of its own
+    scases = []
+    for k in range(6 if run.tier == "quick" else 60):
+        fx = [{"name": "f5", "scope": "test", "params": [], "per_thread": False, "generator": True, "setup": [["mark", 1], ["mark", 2]], "teardown": [["mark", 3]]},
+              {"name": "f9", "scope": "test", "params": ["f5"], "per_thread": False, "generator": k % 2 == 0, "setup": [["mark", 4]], "teardown": [["mark", 5]] if k % 2 == 0 else []}]
+        tests = [{"name": "t%d" % (10 + i), "disabled": False, "rank": i, "deps": [], "args": ["f5", "f9"], "params": {},
+                  "body": [["mark", 6], ["use", "f5"], ["mark", 7], ["use", "f9"]]} for i in range(3 + k % 2)]
+        scases.append({"id": "fs%d" % k, "project": {"fixtures": fx, "suites": [
+            {"name": "s6", "disabled": False, "rank": 0, "hooks": nohooks, "injected": [], "tests": tests, "subs": []}]},
+            "sched": projgen.gen_sched(run.rng, run.rng.choice(["random", "bursts", "last"])),
+            "options": {"nb_threads": run.rng.choice([2, 3]), "stop_on_failure": False, "force_disabled": False}})
+    sres = engine.cosim(run, scases)
+    for c in scases:
+        r = sres.get(c["id"]) or {"outcome": ["hang", "no result"]}
+        run.evaluations += 1
+        run.count("same_test_fixtures_at_the_same_time_runs")
+        hits = runoracle.c03_oracle(c, r)
+        rep = r.get("report")
+        if rep and not hits:
+            bad = [t for t, st in runoracle.report_tests(rep) if st != "passed"]
+            if bad:
+                hits = [("test-failed-although-nothing-fails", "tests %s do not pass although no user code fails" % bad)]
+        for sig, text in hits:
+            run.violation(sig, text, {"case": c, "outcome": r.get("outcome")})
     propcommon.search_failing_schedule(run, cases, runoracle.c03_oracle, results)
     run.coverage["rule"] = ("seeded random projects biased towards fixtures (4 scopes, generator/plain, parameters, injected, "
                             "setup_suite arguments) and hooks with failures in setups, bodies and teardowns; non-trivial = at "
